@@ -20,7 +20,8 @@ use std::sync::{Arc, Mutex};
 #[derive(Clone, Debug, PartialEq)]
 enum T {
     File { name: String, size: usize },
-    Dir { name: String, ign: Vec<String>, kids: Vec<T> },
+    /// locked: mode 000 (the walk runs with fsuid nobody for such trees: read_dir fails with EACCES)
+    Dir { name: String, ign: Vec<String>, kids: Vec<T>, locked: bool },
     /// target: "main/a/b", "alt/x" or "!" (dangling)
     Link { name: String, target: String },
 }
@@ -37,8 +38,11 @@ fn show_t(t: &T, out: &mut String) {
     match t {
         T::File { name, size } => out.push_str(&format!("{}:{}", name, size)),
         T::Link { name, target } => out.push_str(&format!("{}>{}", name, target)),
-        T::Dir { name, ign, kids } => {
+        T::Dir { name, ign, kids, locked } => {
             out.push_str(name);
+            if *locked {
+                out.push('!');
+            }
             if !ign.is_empty() {
                 out.push('[');
                 out.push_str(&ign.join(";"));
@@ -96,8 +100,13 @@ impl<'a> P<'a> {
                 let t = self.word(b"/!_");
                 Some(T::Link { name, target: t })
             }
-            Some(b'[') | Some(b'(') => {
+            Some(b'[') | Some(b'(') | Some(b'!') => {
                 let mut ign = vec![];
+                let mut locked = false;
+                if self.peek() == Some(b'!') {
+                    self.i += 1;
+                    locked = true;
+                }
                 if self.peek() == Some(b'[') {
                     self.i += 1;
                     loop {
@@ -116,7 +125,7 @@ impl<'a> P<'a> {
                     }
                 }
                 let kids = self.list()?;
-                Some(T::Dir { name, ign, kids })
+                Some(T::Dir { name, ign, kids, locked })
             }
             _ => None,
         }
@@ -254,10 +263,14 @@ fn materialise(areas: &Areas, dir: &Path, ts: &[T]) {
             T::Link { target, .. } => {
                 let _ = std::os::unix::fs::symlink(target_path(areas, target), &p);
             }
-            T::Dir { ign, kids, .. } => {
+            T::Dir { ign, kids, locked, .. } => {
                 materialise(areas, &p, kids);
                 if !ign.is_empty() {
                     std::fs::write(p.join("IGN"), ign.join("\n") + "\n").unwrap();
+                }
+                if *locked {
+                    use std::os::unix::fs::PermissionsExt;
+                    std::fs::set_permissions(&p, std::fs::Permissions::from_mode(0o000)).unwrap();
                 }
             }
         }
@@ -297,7 +310,10 @@ fn index_dirs(dir: &Path, inos: &mut HashMap<PathBuf, usize>, devs: &mut BTreeMa
     inos.insert(std::fs::canonicalize(dir).unwrap(), n);
     let nd = devs.len() + 1;
     devs.entry(md.dev()).or_insert(nd);
-    let mut names: Vec<PathBuf> = std::fs::read_dir(dir).unwrap().map(|e| e.unwrap().path()).collect();
+    let mut names: Vec<PathBuf> = match std::fs::read_dir(dir) {
+        Ok(rd) => rd.map(|e| e.unwrap().path()).collect(),
+        Err(_) => vec![], // unreadable: nothing below it can be reached
+    };
     names.sort();
     for p in names {
         index_dirs(&p, inos, devs);
@@ -316,7 +332,9 @@ fn describe(
     if lmd.file_type().is_symlink() {
         let tgt = match std::fs::metadata(p) {
             Err(_) => "-".to_string(),
-            Ok(md) if md.is_dir() => match inos.get(&std::fs::canonicalize(p).unwrap()) {
+            // a directory that cannot be opened cannot be followed (see Lister): for the model a dangling link
+            Ok(md) if md.is_dir() && std::fs::File::open(p).is_err() => "-".to_string(),
+            Ok(md) if md.is_dir() => match std::fs::canonicalize(p).ok().and_then(|c| inos.get(&c)) {
                 Some(i) => format!("(d {})", i),
                 None => "-".to_string(),
             },
@@ -330,7 +348,10 @@ fn describe(
         out.push_str(&format!("(d {} {} {} (ign {})", name, ino, dev, ign.join(" ")));
         // children in read_dir order: which siblings the serial walker loses after the known
         // skip_current_dir defect depends on it
-        let kids: Vec<PathBuf> = std::fs::read_dir(p).unwrap().map(|e| e.unwrap().path()).collect();
+        let kids: Vec<PathBuf> = match std::fs::read_dir(p) {
+            Ok(rd) => rd.map(|e| e.unwrap().path()).collect(),
+            Err(_) => vec![], // unreadable directory: for the model a directory without children
+        };
         for k in kids {
             out.push(' ');
             describe(&k, inos, devs, names, out);
@@ -389,6 +410,11 @@ impl<'a> Lister<'a> {
                         continue;
                     }
                     Ok(md) => {
+                        // the loop check needs a handle on the directory: one that cannot be opened cannot be followed
+                        if md.is_dir() && std::fs::File::open(&p).is_err() {
+                            self.out.push(('B', p.clone()));
+                            continue;
+                        }
                         if md.is_dir() && anc.contains(&(md.dev(), md.ino())) {
                             self.out.push(('L', p.clone()));
                             continue;
@@ -421,6 +447,47 @@ impl<'a> Lister<'a> {
     }
 }
 
+// ------------------------------------------------------------------ unreadable directories
+
+extern "C" {
+    fn setfsuid(uid: u32) -> i32;
+}
+
+/// The harness runs as root, for which mode bits mean nothing.  For trees with locked (mode 000) directories the
+/// file-system uid of the calling thread — inherited by the threads the parallel walker spawns — is switched to
+/// `nobody` while the tree is looked at (walkers, listing, description for the model) and back afterwards.
+struct FsUid {
+    dropped: bool,
+}
+
+impl FsUid {
+    fn drop_if(yes: bool) -> FsUid {
+        if yes {
+            unsafe {
+                setfsuid(65534);
+            }
+        }
+        FsUid { dropped: yes }
+    }
+}
+
+impl Drop for FsUid {
+    fn drop(&mut self) {
+        if self.dropped {
+            unsafe {
+                setfsuid(0);
+            }
+        }
+    }
+}
+
+fn has_locked(ts: &[T]) -> bool {
+    ts.iter().any(|t| match t {
+        T::Dir { locked, kids, .. } => *locked || has_locked(kids),
+        _ => false,
+    })
+}
+
 // ------------------------------------------------------------------ the real walkers
 
 fn classify(err: &ignore::Error, path: Option<&Path>) -> (char, PathBuf) {
@@ -429,6 +496,13 @@ fn classify(err: &ignore::Error, path: Option<&Path>) -> (char, PathBuf) {
         ignore::Error::WithDepth { err, .. } => classify(err, path),
         ignore::Error::WithLineNumber { err, .. } => classify(err, path),
         ignore::Error::Loop { child, .. } => ('L', child.clone()),
+        ignore::Error::Io(e) if e.kind() == std::io::ErrorKind::PermissionDenied => {
+            // EACCES on a real directory = its listing failed (not modelled, counted only); EACCES on a link = the
+            // link cannot be followed (both walkers open a followed directory for the loop check): like a dangling link
+            let is_link =
+                path.map_or(false, |p| std::fs::symlink_metadata(p).map_or(false, |m| m.file_type().is_symlink()));
+            (if is_link { 'B' } else { 'D' }, path.map_or(PathBuf::from("?"), |p| p.to_path_buf()))
+        }
         ignore::Error::Io(_) => ('B', path.map_or(PathBuf::from("?"), |p| p.to_path_buf())),
         ignore::Error::Partial(v) if !v.is_empty() => classify(&v[0], path),
         _ => ('?', path.map_or(PathBuf::from("?"), |p| p.to_path_buf())),
@@ -538,6 +612,7 @@ impl Env {
             let areas = Areas { main: base.join("main"), alt: alt_base.join("alt") };
             materialise(&areas, &areas.alt, &c.alt);
             materialise(&areas, &areas.main, &c.main);
+            let _uid = FsUid::drop_if(has_locked(&c.main));
             let mut inos = HashMap::new();
             let mut devs = BTreeMap::new();
             // the two area directories themselves are link targets too
@@ -559,6 +634,8 @@ impl Env {
 fn run_case(c: &Case, text: &str, env: &mut Env, drv: &mut Driver, rep: &mut Report) {
     rep.eval();
     let (main, forest, names, inos, devs) = env.ensure(c);
+    let locked_tree = has_locked(&c.main);
+    let uid_guard = FsUid::drop_if(locked_tree);
     let roots: Vec<PathBuf> = c.roots.iter().map(|r| main.join(r)).collect();
     let mut root_sx: Vec<String> = vec![];
     for r in &roots {
@@ -591,6 +668,22 @@ fn run_case(c: &Case, text: &str, env: &mut Env, drv: &mut Driver, rep: &mut Rep
     let ser = canon(&real_serial(&c.cfg, &roots, limit), &main, names);
     let par = canon(&real_parallel(&c.cfg, &roots, c.threads, limit), &main, names);
     let lst = canon(&l.out, &main, names);
+    drop(uid_guard);
+    // Error visits for unreadable directories (EACCES) are outside the property (they are not entries) and are
+    // not modelled (an unreadable directory is a directory without children): they are counted, not compared.
+    let strip = |v: Vec<String>| -> (Vec<String>, Vec<String>) { v.into_iter().partition(|x| !x.starts_with("D:")) };
+    let (ser, ser_denied) = strip(ser);
+    let (par, par_denied) = strip(par);
+    if locked_tree {
+        rep.branch("tree-with-unreadable-dir");
+    }
+    if !par_denied.is_empty() || !ser_denied.is_empty() {
+        rep.branch("unreadable-dir-error-visit");
+        if ser_denied != par_denied {
+            // e.g. at max_depth the parallel walker has already called read_dir, the serial one never does
+            rep.branch("unreadable-dir-error-visit:serial-and-parallel-differ");
+        }
+    }
     let ask = |drv: &mut Driver, which: &str| -> Vec<String> {
         let r = drv.ask(&format!(
             "c06.walk {} {} (forest {}) (roots {})",
@@ -605,7 +698,24 @@ fn run_case(c: &Case, text: &str, env: &mut Env, drv: &mut Driver, rep: &mut Rep
             r.split_whitespace().map(|x| x.to_string()).collect()
         }
     };
+    // In trees with unreadable directories I/O errors are not compared at all: walkdir reports the failed loop
+    // check of a followed link to an unopenable directory without a path, the parallel walker with one.
+    let ask = |drv: &mut Driver, which: &str| -> Vec<String> {
+        let v = ask(drv, which);
+        if locked_tree && which != "guard" {
+            v.into_iter().filter(|x| !x.starts_with("B:")).collect()
+        } else {
+            v
+        }
+    };
+    let (ser, par, lst) = if locked_tree {
+        let f = |v: Vec<String>| -> Vec<String> { v.into_iter().filter(|x| !x.starts_with("B:")).collect() };
+        (f(ser), f(par), f(lst))
+    } else {
+        (ser, par, lst)
+    };
     let m_ser = ask(drv, "serial");
+    let m_ev = ask(drv, "events");
     let m_par = ask(drv, "parallel");
     let m_reach = ask(drv, "reach");
     let guard = ask(drv, "guard");
@@ -702,6 +812,15 @@ fn run_case(c: &Case, text: &str, env: &mut Env, drv: &mut Driver, rep: &mut Rep
             detail: format!("serial real vs model: {}", diff(&ser, &m_ser)),
         });
     }
+    if ser != m_ev || m_ev != m_ser {
+        rep.violation(Violation {
+            kind: "impl_vs_model".into(),
+            class: "".into(),
+            tie: "WalkBuilder::build() vs the operational model Model.WalkEvents.serialEvents (walkdir IntoIter + WalkEventIter + Walk::next) vs the recursive model Model.Walk.serial".into(),
+            case: text.into(),
+            detail: format!("serial real vs event model: {} ; event model vs recursive model: {}", diff(&ser, &m_ev), diff(&m_ev, &m_ser)),
+        });
+    }
     if par != m_par {
         rep.violation(Violation {
             kind: "impl_vs_model".into(),
@@ -744,6 +863,7 @@ struct Gen<'a> {
     files: Vec<String>, // paths of files
     links: Vec<String>,
     has_alt: bool,
+    allow_locked: bool,
 }
 
 impl<'a> Gen<'a> {
@@ -773,8 +893,16 @@ impl<'a> Gen<'a> {
                 } else {
                     vec![]
                 };
+                let locked = self.allow_locked && self.rng.chance(1, 4);
+                let marks = (self.dirs.len(), self.files.len(), self.links.len());
                 let kids = self.kids(&p, depth + 1, budget);
-                out.push(T::Dir { name: name.into(), ign, kids });
+                if locked {
+                    // nothing below an unreadable directory may be a link target
+                    self.dirs.truncate(marks.0);
+                    self.files.truncate(marks.1);
+                    self.links.truncate(marks.2);
+                }
+                out.push(T::Dir { name: name.into(), ign, kids, locked });
             } else {
                 let target = match self.rng.below(7) {
                     0 => "!".to_string(),
@@ -794,7 +922,8 @@ impl<'a> Gen<'a> {
 }
 
 fn gen_case(rng: &mut Rng, has_alt: bool) -> (Vec<T>, Vec<T>, Vec<String>) {
-    let mut g = Gen { rng, dirs: vec![], files: vec![], links: vec![], has_alt };
+    let allow_locked = rng.chance(1, 5);
+    let mut g = Gen { rng, dirs: vec![], files: vec![], links: vec![], has_alt, allow_locked };
     let nroots = g.rng.range(1, 3);
     let mut main = vec![];
     let mut roots = vec![];
@@ -816,7 +945,7 @@ fn gen_case(rng: &mut Rng, has_alt: bool) -> (Vec<T>, Vec<T>, Vec<String>) {
                 let ign =
                     if g.rng.chance(1, 4) { vec![g.rng.pick(&NAMES).to_string()] } else { vec![] };
                 let kids = g.kids(&p, 1, &mut budget);
-                main.push(T::Dir { name: name.clone(), ign, kids });
+                main.push(T::Dir { name: name.clone(), ign, kids, locked: false });
             }
         }
         roots.push(name);
@@ -827,6 +956,7 @@ fn gen_case(rng: &mut Rng, has_alt: bool) -> (Vec<T>, Vec<T>, Vec<String>) {
             T::File { name: "q".into(), size: g.rng.below(9) },
             T::Dir {
                 name: "p".into(),
+                locked: false,
                 ign: vec![],
                 kids: vec![T::File { name: "a".into(), size: 1 }, T::File { name: "m".into(), size: 7 }],
             },
@@ -834,7 +964,7 @@ fn gen_case(rng: &mut Rng, has_alt: bool) -> (Vec<T>, Vec<T>, Vec<String>) {
         if g.rng.chance(1, 2) {
             ok.push(T::Link { name: "back".into(), target: "main/r0".into() });
         }
-        vec![T::Dir { name: "o".into(), ign: vec![], kids: ok }]
+        vec![T::Dir { name: "o".into(), ign: vec![], kids: ok, locked: false }]
     } else {
         vec![]
     };
@@ -889,6 +1019,8 @@ fn special_trees(has_alt: bool) -> Vec<(String, String, String)> {
         ("(r0(a(l>main/r0,b:1),s>main/r0/a),r1>main/r0/a,r2>main/r0/a/b,r3>!)".to_string(), "()".to_string(), "r0.r1.r2.r3".to_string()),
         ("(r0(a(up>main/r0/b),b(dn>main/r0/a),c>main/r0/c,d>main/r0/e,e>main/r0/d))".to_string(), "()".to_string(), "r0".to_string()),
         ("(r0[m;z](a(m:1,n:1,z(y:1)),m(x:1),n[a](a:1,b:1)))".to_string(), "()".to_string(), "r0".to_string()),
+        // unreadable directories (mode 000, walked with fsuid nobody), one of them reached through a link as well
+        ("(r0(a:1,k!(x:1,y(z:1)),b(c!(),d:2,l>main/r0/k),m!(q:1),z:3),r1!(a:1))".to_string(), "()".to_string(), "r0.r1".to_string()),
     ];
     if has_alt {
         v.push(("(r0(a:1,b:2,m>alt/o,n:3,x>alt/o/p,z:1,c(d:1)))".to_string(), alt.to_string(), "r0".to_string()));
